@@ -1024,7 +1024,12 @@ pub fn bpmap_op(rng: &mut Rng, tier: Tier) -> Option<String> {
         let a = *rng.pick(&addrs);
         addrs.push(a);
     }
-    let a: Vec<String> = addrs.iter().map(|a| a.to_string()).collect();
+    let mut a: Vec<String> = addrs.iter().map(|a| a.to_string()).collect();
+    // `iter_symbols()` somewhere in between (it fills the same memo tables)
+    if rng.chance(1, 2) {
+        let at = rng.below(a.len() as u64 + 1) as usize;
+        a.insert(at, "iter".to_string());
+    }
     Some(format!("bpmap {} {} {}", hex(&sym.text), hex(&idx), a.join(" ")))
 }
 
@@ -1282,6 +1287,8 @@ pub fn fixed_cases(tier: Tier) -> Vec<Case> {
         wr64(&mut i, eo + 32 + 8, off0);
         ops.push(format!("bpmap {} {} 4100 12290 4100", hex(text.as_bytes()), hex(&i)));
         ops.push(format!("bpmap {} {} 12290 4100 12290", hex(text.as_bytes()), hex(&i)));
+        ops.push(format!("bpmap {} {} iter 12290 4100 8192", hex(text.as_bytes()), hex(&i)));
+        ops.push(format!("bpmap {} {} 12290 iter 4100 8192 12290", hex(text.as_bytes()), hex(&i)));
         wr32(&mut i, eo + 32 + 4, 20);
         ops.push(format!("bpmap {} {} 12290 4100 12290", hex(text.as_bytes()), hex(&i)));
         ops.push(format!("bpmap {} {} 4100 12290 4100", hex(text.as_bytes()), hex(&i)));
